@@ -19,7 +19,11 @@
    Orig = TRUE transcribes prepend(const String&) and replace(needle, replacement) as they were written before
    the fixes for findings F7 / F8 (CowStringImpl_orig.cfg: TLC reports both); Orig = FALSE is the current code. *)
 EXTENDS ByteStrings
-CONSTANTS Orig, CapSet, AttLens, CharSet, Skip      \* Skip: operations left out of a configuration
+\* Configuration: Orig (see above); argument sets of reserve / resize / attach / append(char); Skip = operations
+\* left out of a configuration (the cfg files trade variables x string length x operations for graph size: every
+\* edge of the dumped graph is replayed on the real class).  MaxLen bounds the strings of the states that are
+\* expanded; Bytes gives the one-byte data arguments (DataSet).
+CONSTANTS Orig, CapSet, ResizeSet, AttLens, CharSet, Skip
 VARIABLES rep, blk, xm, err
 ivars == <<rep, blk, xm, err, st>>
 
@@ -200,7 +204,7 @@ INext == \E i \in Vars :
                       \/ \E m \in Vars : IDo("replace", i, k, m, <<>>, 0, 0)
    \/ \E d \in DataSet : \/ IDo("ctorbuf", i, 0, 0, d, 0, 0) \/ IDo("appendb", i, 0, 0, d, 0, 0)
                          \/ IDo("prependb", i, 0, 0, d, 0, 0) \/ IDo("trim", i, 0, 0, d, 0, 0)
-   \/ \E n \in 0..MaxLen : IDo("resize", i, 0, 0, <<>>, n, 0)
+   \/ \E n \in ResizeSet : IDo("resize", i, 0, 0, <<>>, n, 0)
    \/ \E n \in CapSet : IDo("reserve", i, 0, 0, <<>>, n, 0)
    \/ \E c \in CharSet : IDo("appendc", i, 0, 0, <<>>, c, 0)
    \/ IDo("clear", i, 0, 0, <<>>, 0, 0) \/ IDo("cstr", i, 0, 0, <<>>, 0, 0) \/ IDo("cstrm", i, 0, 0, <<>>, 0, 0)
